@@ -1394,14 +1394,21 @@ class InterpreterAnalyzer(ASTTemplate):
         left_operand = self.visit(node.left)
         right_operand = self.visit(node.right)
         if isinstance(right_operand, Dataset):
-            right_operand = get_measure_from_dataset(right_operand, node.right.value)
+            right_operand = get_measure_from_dataset(right_operand, self._hr_code_item(node.right))
 
         if node.op in HR_COMP_MAPPING:
             op = HAAssignment if self.is_from_hr_agg else HR_COMP_MAPPING[node.op]
             return op.validate(left_operand, right_operand)
         if isinstance(left_operand, Dataset):
-            left_operand = get_measure_from_dataset(left_operand, node.left.value)
+            left_operand = get_measure_from_dataset(left_operand, self._hr_code_item(node.left))
         return HR_NUM_BINARY_MAPPING[node.op].validate(left_operand, right_operand)
+
+    @staticmethod
+    def _hr_code_item(node: AST.AST) -> str:
+        """Code item name of a rule operand, looking through a leading sign (``- b``)."""
+        while isinstance(node, AST.HRUnOp):
+            node = node.operand
+        return node.value  # type: ignore[attr-defined]
 
     def visit_HRUnOp(self, node: AST.HRUnOp) -> None:
         operand = self.visit(node.operand)
